@@ -32,3 +32,9 @@ def fill(check, na):
           "sampled packet; interiors are sampled except for short bursts on short packets (all interiors, exhaustive sub-space).",
           "google-crc32c trusted; the full space of packets x bursts is sampled, never exhausted.",
           "DESIGN.md 3/C08")
+    check("C16", "lossless-round-trip and size-limit oracles on the real packetisers (H264Encoder._packetize/pack, Vp8Encoder._packetize/pack) through the real depayloaders, plus an independent RFC 6184 payload reader",
+          "Held on the inputs generated: every payload is <= 1300 bytes and depacketising reproduces the bitstream byte for byte; "
+          "FU-A / STAP-A / VP8 descriptor structure is checked by an independent reader. Single-NAL sizes 2..5200, VP8 sizes "
+          "0..5200 and all 15-bit picture ids are enumerated completely; longer sequences are sampled around the fragment-size multiples.",
+          "NAL bodies are Annex-B clean; PyAV trusted for av.Packet.",
+          "DESIGN.md 3/C16")
